@@ -84,7 +84,7 @@ class Check:
             r['samples'].append({'instance': desc, 'status': status})
 
     def floor(self, rule, n):
-        got = self.rules[rule]['instances']
+        got = self.rules.get(rule, {'instances': 0})['instances']       # a rule that was never reached counts as zero instances
         if got < n:
             self.broken.append('rule %s matched %d instances, floor %d' % (rule, got, n))
 
